@@ -109,7 +109,7 @@ class bspline(object):
                 else:
                     xspot = int(nx/(nbkpts-1)) * np.arange(nbkpts, dtype='i4')
                     xspot = np.minimum(xspot, nx - 1)
-                bkpt = x[xspot].astype('f')
+                bkpt = x[xspot].astype('d')
             else:
                 raise ValueError('No information for bkpts.')
         imin = bkpt.argmin()
